@@ -470,6 +470,61 @@ def _flag_names(t):
     return '?' + show(t, maxdepth=2)
 
 
+def _linear(t):
+    """integer term as {'len': a, 'idx': b, 'one': c} over (length of a sequence, an enumerate/loop index, 1); None if not of that shape"""
+    t = strip(t)
+    while isinstance(t, tuple) and t[0] == 'fld' and t[2] == '0' and isinstance(strip(t[1]), tuple) and strip(t[1])[0] == 'bin' and str(strip(t[1])[1]).endswith('WithOverflow'):
+        t = strip(t[1])          # checked arithmetic: (a op b).0
+    c = util.const_val(t)
+    if isinstance(c, int) and not isinstance(c, bool):
+        return {'len': 0, 'idx': 0, 'one': c}
+    if isinstance(t, tuple) and t[0] == 'bin':
+        op = str(t[1]).replace('WithOverflow', '').replace('Unchecked', '')
+        if op in ('Add', 'Sub'):
+            a, b = _linear(t[2]), _linear(t[3])
+            if a is None or b is None:
+                return None
+            sg = 1 if op == 'Add' else -1
+            return {k: a[k] + sg * b[k] for k in a}
+        return None
+    if isinstance(t, tuple) and t[0] == 'call' and cname(t[1]).split('::')[-1] == 'len':
+        return {'len': 1, 'idx': 0, 'one': 0}
+    if isinstance(t, tuple) and t[0] in ('fld', 'var', 'mutb', 'deref', 'ref'):
+        return {'len': 0, 'idx': 1, 'one': 0}
+    return None
+
+
+def _last_element_test(g, truth):
+    """True: the edge implies idx == len - 1 (given 0 <= idx < len); False: it implies idx < len - 1; None: neither recognised.
+    The comparison is brought to `a*len + b*idx + c <= 0` over the integers."""
+    g = strip(g)
+    if truth not in (True, False):
+        return None
+    l, r = _linear(g[2]), _linear(g[3])
+    if l is None or r is None:
+        return None
+    d = {k: l[k] - r[k] for k in l}          # lhs - rhs
+    op = g[1]
+    if op in ('Eq', 'Ne'):
+        v = (d['len'], d['idx'], d['one'])
+        if v in ((-1, 1, 1), (1, -1, -1)):   # idx == len - 1
+            return (op == 'Eq') == truth
+        return None
+    if not truth:
+        op = {'Le': 'Gt', 'Lt': 'Ge', 'Ge': 'Lt', 'Gt': 'Le'}[op]
+    if op in ('Ge', 'Gt'):
+        d = {k: -x for k, x in d.items()}
+        op = {'Ge': 'Le', 'Gt': 'Lt'}[op]
+    if op == 'Lt':
+        d['one'] += 1                          # x < 0  <=>  x + 1 <= 0
+    v = (d['len'], d['idx'], d['one'])
+    if v == (-1, 1, 2):                        # idx + 2 <= len: not the last element
+        return False
+    if v == (1, -1, -1):                       # len - 1 <= idx: the last element
+        return True
+    return None
+
+
 def _flags(ctx, prog, probe, step):
     """R12.5b: waypoint flags in the strategy probe"""
     pushes = [(bi, t) for bi, t in probe.calls() if cname(callee_name(t)) == 'Vec::push']
@@ -494,12 +549,9 @@ def _flags(ctx, prog, probe, step):
                 lt = [(g, v) for g, v in gs if isinstance(g, tuple) and g[0] == 'bin' and g[1] in ('Lt', 'Le', 'Ge', 'Gt', 'Eq', 'Ne')]
                 last = None
                 for g, v in lt:
-                    bd = util.as_bound(g, v)
-                    s_ = show(g, maxdepth=6)
-                    if bd is not None and bd[0] == 'lt' and 'len' in show(bd[2], maxdepth=5) and '- 1' in show(bd[2], maxdepth=5):
-                        last = False          # p < len - 1 holds: not the last element
-                    elif bd is not None and bd[0] == 'le' and 'len' in show(bd[1], maxdepth=5) and '- 1' in show(bd[1], maxdepth=5):
-                        last = True           # len - 1 <= p : the last element
+                    r = _last_element_test(g, v)
+                    if r is not None:
+                        last = r
                 kinds[last] = val
             want_mid = ('bitand', ('bitor', 'LIN_INTERP', 'TARGET.flags'), ('not', ('bitor', 'PARK', 'TRACE')))
             ok = kinds.get(True) == 'TARGET.flags' and kinds.get(False) == want_mid
